@@ -22,6 +22,11 @@ def run(tier, seed, t0):
     jobs += [Job("asan-%d" % i, "drv_c11", "asan", "spqlios-fma",
                  ["--seed", seed + 2, "--tier", "quick", "--shard", i, "--nshards", na,
                   "--maxN", 2048 if thorough else 256, "--basisN", 16 if thorough else 8], timeout=900) for i in range(na)]
+    # operands shared between threads (const inputs): exactness natively, and any write to a shared operand under TSan
+    for i, T in enumerate((4, 16) if thorough else (4,)):
+        jobs.append(Job("shared-optim-T%d" % T, "drv_c11", "optim", "spqlios-fma", ["--mode", "shared", "--threads", T, "--iters", 1200 if thorough else 300, "--seed", seed + 3 + i], meta={"leaks": False}))
+    jobs.append(Job("shared-debug", "drv_c11", "debug", "nayuki-portable", ["--mode", "shared", "--threads", 4, "--iters", 120, "--seed", seed + 4]))
+    jobs.append(Job("shared-tsan", "drv_c11", "tsan", "nayuki-portable", ["--mode", "shared", "--threads", 3, "--iters", 60, "--seed", seed + 5], tool="tsan", timeout=1800, meta={"leaks": False}))
     return vcheck.simple_run("C11", tier, seed, t0, jobs, "exploration", RULE,
                              ["the torus is Z/2^32, so uint32 wrapping arithmetic in the harness is the exact ring arithmetic",
                               "N ranges over powers of two 1..2048; a over all of [0,2N) (sampled for N>512 in quick tier)"],
